@@ -41,7 +41,12 @@ TextRtOk(r) ==
 (* 1029 frames carrying arbitrary text bytes: invalid UTF-8 must decode to Corrupt *)
 Utf8FrameOk(r) ==
     /\ Classify(r.frame) = "ok"
-    /\ IF ValidUtf8(r.text) THEN (r.dec = "Typed" /\ U8Bytes(r.cps_dec) = r.text) ELSE r.dec = "Corrupt"
+    /\ IF ~ValidUtf8(r.text) THEN r.dec = "Corrupt"
+       \* valid text: when the character counter (DF138) agrees with the text this is what an encoder writes, so it decodes
+       \* to that text; whether a decoder checks a DISAGREEING counter is not fixed by C17 (either outcome, but never other text)
+       ELSE /\ r.dec \in {"Typed", "Corrupt"}
+            /\ r.dec = "Typed" => U8Bytes(r.cps_dec) = r.text
+            /\ ("nchars" \notin DOMAIN r \/ r.nchars = Utf8CharCount(r.text)) => r.dec = "Typed"
 Utf8ShortOk(r) == r.declared > r.present => r.dec = "Corrupt"
 
 TraceStr == IsEvent("Str") /\ StrOk(Rec[l]) = TRUE
